@@ -344,7 +344,9 @@ func lay4Builder(e *Env, fn *ssa.Function, binary bool, built map[*types.Named]b
 		for p := range usedCounters {
 			accs = append(accs, p)
 		}
-		sort.Slice(accs, func(i, j int) bool { return accs[i].Pos() < accs[j].Pos() || (accs[i].Pos() == accs[j].Pos() && accs[i].Name() < accs[j].Name()) })
+		sort.Slice(accs, func(i, j int) bool {
+			return accs[i].Pos() < accs[j].Pos() || (accs[i].Pos() == accs[j].Pos() && accs[i].Name() < accs[j].Name())
+		})
 		for _, acc := range accs {
 			c := b.counters[acc]
 			construct := name + "/accumulator"
